@@ -131,7 +131,7 @@ fn hand_plan(rng: &mut Rng, baseline: &[TableDef], version: u32) -> Option<(Migr
         }
         let ti = rng.below(cur.len());
         let t = cur[ti].clone();
-        let a: Option<MigrationAction> = match rng.below(12) {
+        let a: Option<MigrationAction> = match rng.below(14) {
             0 | 1 => {
                 // RenameTable
                 let mut pool = NEW_TABLES.to_vec();
@@ -218,19 +218,41 @@ fn hand_plan(rng: &mut Rng, baseline: &[TableDef], version: u32) -> Option<(Migr
             }
             10 => Some(MigrationAction::RawSql { sql: "SELECT 1".into() }),
             _ => {
-                // an AddColumn next to the explicit actions (nullable plain, or NOT NULL with default: a rebuild)
+                // an AddColumn next to the explicit actions: nullable plain, NOT NULL with default (a rebuild), and — as a
+                // hand-written plan or `revision --fill-with` may — a column that declares a default AND carries a fill_with
+                // that differs from it (integer / text / enum, NOT NULL and nullable), so that the backfill precedence
+                // (fill_with, then default, then NULL) is observable in the SQL and in the rows
                 let mut pool = NEW_COLS.to_vec();
                 rng.shuffle(&mut pool);
                 pool.into_iter().find(|n| !t.columns.iter().any(|c| c.name == *n)).map(|cn| {
                     let notnull = rng.chance(1, 2);
-                    let mut c: ColumnDef = gener::col(cn, ColumnType::Simple(SimpleColumnType::Integer), !notnull);
-                    if notnull {
-                        c.default = Some(vespertide_core::DefaultValue::Integer(0));
+                    let kind = rng.below(3);
+                    let ty = match kind {
+                        0 => ColumnType::Simple(SimpleColumnType::Integer),
+                        1 => ColumnType::Simple(SimpleColumnType::Text),
+                        _ => ColumnType::Complex(vespertide_core::ComplexColumnType::Enum {
+                            name: "tier".into(),
+                            values: vespertide_core::EnumValues::String(vec!["basic".into(), "legacy".into(), "gold".into()]),
+                        }),
+                    };
+                    let mut c: ColumnDef = gener::col(cn, ty, !notnull);
+                    let both = rng.chance(1, 2);
+                    let with_default = notnull || both || rng.chance(1, 3);
+                    if with_default {
+                        c.default = Some(match kind {
+                            0 => vespertide_core::DefaultValue::Integer(0),
+                            _ => vespertide_core::DefaultValue::String("'basic'".into()),
+                        });
                     }
-                    if rng.chance(1, 2) {
+                    let fill_with = if both || (!with_default && rng.chance(1, 2)) {
+                        Some(match kind { 0 => "7".to_string(), _ => "'legacy'".to_string() })
+                    } else {
+                        None
+                    };
+                    if kind == 0 && rng.chance(1, 2) {
                         c.index = Some(vespertide_core::StrOrBoolOrArray::Bool(true));
                     }
-                    MigrationAction::AddColumn { table: t.name.clone(), column: Box::new(c), fill_with: None }
+                    MigrationAction::AddColumn { table: t.name.clone(), column: Box::new(c), fill_with }
                 })
             }
         };
